@@ -16,6 +16,7 @@ fn main() {
     match args[0].as_str() {
         "lex-replay" => lex::replay(rest),
         "lex-record" => lex::record(rest),
+        "lex-history" => lex::history(rest),
         "parse-replay" => parse::replay(rest),
         "parse-record" => parse::record(rest),
         "parse-one" => parse::one(rest),
@@ -27,6 +28,8 @@ fn main() {
         "builtins-record" => eval::builtins_record(rest),
         "literal-record" => eval::literal_record(rest),
         "exec-one" => eval::exec_one(rest),
+        "eval-replay" => eval::eval_replay(rest),
+        "eval-record" => eval::eval_record(rest),
         "render-replay" => parse::render_replay(rest),
         "render-record" => parse::render_record(rest),
         "render-one" => parse::render_one(rest),
